@@ -47,6 +47,95 @@ impl<B: RingBuf<Item = Val>> Exec for BufExec<B> {
     }
 }
 
+// ---------------------------------------------------------------------------
+// zero-sized elements: `size_of::<T>() == 0` changes what VecDeque / pointer arithmetic do
+// underneath the buffers.  Elements are indistinguishable, so the executor keeps the tags of the
+// stored elements in a shadow FIFO: a pop reports the oldest tag, every `Drop` of an element the
+// buffer still owned reports the next one (a drop with an empty shadow is a double drop).
+
+thread_local! {
+    static ZST_SHADOW: std::cell::RefCell<std::collections::VecDeque<u64>> = std::cell::RefCell::new(std::collections::VecDeque::new());
+}
+
+pub struct Zst;
+
+impl Drop for Zst {
+    fn drop(&mut self) {
+        match unarmed(|| ZST_SHADOW.with(|q| q.borrow_mut().pop_front())) {
+            Some(t) => log_val(V_DROPPED, t),
+            None => log_val(V_DOUBLE_DROP, 0),
+        }
+    }
+}
+
+pub struct ZstExec<B: RingBuf<Item = Zst>> {
+    buf: Option<B>,
+}
+
+impl<B: RingBuf<Item = Zst>> ZstExec<B> {
+    pub fn new(cap: usize) -> Self {
+        unarmed(|| ZST_SHADOW.with(|q| { let mut q = q.borrow_mut(); q.clear(); q.reserve(64); }));
+        ZstExec { buf: Some(B::with_capacity(cap)) }
+    }
+}
+
+impl<B: RingBuf<Item = Zst>> Exec for ZstExec<B> {
+    fn step(&mut self, op: &[u64]) -> Obs {
+        let mut o = Obs::default();
+        if self.buf.is_none() {
+            return Obs::bad();
+        }
+        begin_step();
+        match op {
+            [0, x] => {
+                let b = self.buf.as_mut().unwrap();
+                unarmed(|| ZST_SHADOW.with(|q| q.borrow_mut().push_back(*x)));
+                o.r = vec![lib(|| b.push(Zst)).map_or(R_PANIC, |_| R_UNIT)];
+            }
+            [1] => {
+                let b = self.buf.as_mut().unwrap();
+                o.r = match lib(|| b.pop()) {
+                    None => vec![R_PANIC],
+                    Some(v) => {
+                        std::mem::forget(v);
+                        let t = unarmed(|| ZST_SHADOW.with(|q| q.borrow_mut().pop_front()));
+                        match t {
+                            Some(t) => { log_val(V_DELIVERED, t); vec![R_SOME, t] }
+                            None => vec![R_SOME, 9999],
+                        }
+                    }
+                };
+            }
+            [2] => o.r = vec![R_UNIT],
+            [3] => {
+                let b = self.buf.take().unwrap();
+                o.r = vec![lib(move || drop(b)).map_or(R_PANIC, |_| R_UNIT)];
+            }
+            _ => return Obs::bad(),
+        }
+        end_step(&mut o);
+        if let Some(b) = &self.buf {
+            o.p = vec![b.len() as u64, b.is_empty() as u64, b.can_push() as u64, b.capacity() as u64];
+        }
+        o
+    }
+}
+
+pub fn make_zst(cfg: &[u64]) -> Option<Box<dyn Exec>> {
+    let cap = cfg[1] as usize;
+    Some(match (cfg[0], cap) {
+        (0, 0) => Box::new(ZstExec::<ArrayBuf<Zst, [Zst; 0]>>::new(cap)),
+        (0, 1) => Box::new(ZstExec::<ArrayBuf<Zst, [Zst; 1]>>::new(cap)),
+        (0, 2) => Box::new(ZstExec::<ArrayBuf<Zst, [Zst; 2]>>::new(cap)),
+        (0, 3) => Box::new(ZstExec::<ArrayBuf<Zst, [Zst; 3]>>::new(cap)),
+        (0, 4) => Box::new(ZstExec::<ArrayBuf<Zst, [Zst; 4]>>::new(cap)),
+        (0, 5) => Box::new(ZstExec::<ArrayBuf<Zst, [Zst; 5]>>::new(cap)),
+        (1, _) => Box::new(ZstExec::<FixedHeapBuf<Zst>>::new(cap)),
+        (2, _) => Box::new(ZstExec::<GrowingHeapBuf<Zst>>::new(cap)),
+        _ => return None,
+    })
+}
+
 pub fn make(cfg: &[u64]) -> Option<Box<dyn Exec>> {
     let cap = cfg[1] as usize;
     Some(match (cfg[0], cap) {
